@@ -113,7 +113,7 @@ pub fn error_class(msg: &str) -> &'static str {
         "arith"
     } else if msg.contains("Unmatched pattern") {
         "nomatch"
-    } else if msg.contains("out of range") || msg.contains("out of bounds") {
+    } else if msg.starts_with("Index ") && msg.contains("is out of range") {
         "index"
     } else if msg.contains("StackOverflow") || msg.contains("stack has overflowed") || msg.contains("The stack") {
         "stackoverflow"
